@@ -78,12 +78,24 @@ Proof. exact fold_felt_div_sound_partial. Qed.
    libfunc takes and the value it yields at run time: is_zero, eq (incl. the rewrite of x == 0 to
    is_zero), uN overflowing add/sub, iN overflowing add/sub (three arms), iN_diff, with
    TypeRange::normalized; x+0 / 0+x / x-0 with an unknown x; downcast of a known value (incl. from
-   felt252) and the range-subsumption rewrite for an unknown value; bounded_int_constrain, trim_min/max.
-   Not covered: the inc/dec rewrite for x+-1 (no arithmetic is folded there). *)
+   felt252) and the range-subsumption rewrite for an unknown value; bounded_int_constrain, trim_min/max;
+   the rewrite of x + 1 / x - 1 (unknown x) to the corelib helpers core::internal::num::T_inc / T_dec
+   (MIncDec, modelled by Rt.num_inc / num_dec). *)
 Theorem C07_fold_match : forall f args vals m,
   fold_match f args = Some m -> wf_match f args vals ->
   denote_m m vals = rt_match f vals.
 Proof. exact fold_match_sound. Qed.
+
+(* partial-constant rewrite x +- 1: the helper the folder swaps in has exactly the meaning of the
+   overflowing add / sub of 1 (arm and wrapped value), for every x of the type.  The helper model is
+   tied to corelib/src/internal/num.cairo by the `part` leg of h07 (overflowing/wrapping/checked/
+   saturating add/sub of a literal 1 with a run-time x over MIN..MAX, folding on and off). *)
+Theorem C07_partial_fold_incdec : forall T x, T <> Felt -> in_range T x ->
+  (signed T = false ->
+     num_inc false T x = rt_uoverflowing T (x + 1) /\ num_dec T x = rt_uoverflowing T (x - 1)) /\
+  (signed T = true ->
+     num_inc true T x = rt_ioverflowing T (x + 1) /\ num_dec T x = rt_ioverflowing T (x - 1)).
+Proof. exact incdec_sound. Qed.
 
 Theorem C07_identity_rewrites : forall x, 0 <= x < P ->
   fold_call FeltAdd [None; Some 0] = Some (FVar 0) /\ fold_call FeltAdd [Some 0; None] = Some (FVar 1) /\
@@ -120,9 +132,12 @@ Example C07_ex_iadd_arms :
   fold_match (IAdd I8) [Some 127; Some 1] = Some (MArm 2 (Some (-128))) /\
   fold_match (IAdd I8) [Some (-128); Some (-1)] = Some (MArm 1 (Some 127)) /\
   fold_match (UAdd U8) [Some 255; Some 1] = Some (MArm 1 (Some 0)) /\
+  fold_match (ISub I32) [None; Some 1] = Some (MIncDec false true I32) /\
+  num_dec I32 (tmin I32) = (1%nat, tmax I32) /\
   wf_match (IAdd I8) [Some 127; Some 1] [127; 1].
 Proof.
   split; [reflexivity|]. split; [reflexivity|]. split; [reflexivity|].
+  split; [reflexivity|]. split; [reflexivity|].
   cbn [wf_match]. split; [reflexivity|]. split.
   - repeat constructor.
   - repeat constructor; cbv; congruence.
@@ -140,3 +155,4 @@ Print Assumptions C07_fold_call_int.
 Print Assumptions C07_fold_call_div_partial.
 Print Assumptions C07_fold_match.
 Print Assumptions C07_identity_rewrites.
+Print Assumptions C07_partial_fold_incdec.
